@@ -92,6 +92,7 @@ type Config struct {
 	OneShotMs      int      // timeout of the non-incremental portfolio used when the incremental solver answers unknown
 	OneShotSolvers []string
 	DumpDir        string
+	Tier           int
 }
 
 type Interp struct {
@@ -587,6 +588,7 @@ func (it *Interp) fail(f Failure) {
 		it.sh.mu.Lock()
 		it.sh.stop = true
 		it.sh.mu.Unlock()
+		it.sh.cond.Broadcast()
 	}
 }
 
